@@ -47,7 +47,7 @@ def others (r : Nat) (l : List Member) : List Member := l.filter (fun m => m.req
 def holdsSlot (r : Nat) (l : List Member) : Bool := l.any (fun m => m.req == r)
 
 /-- Concurrent quotas the user flow's limiters consult (with ancestors). -/
-def Cfg.concPath (cfg : Cfg) : List Nat := (cfg.order.filter cfg.isConc).flatMap cfg.chainOf
+def Cfg.concPath (cfg : Cfg) : List Nat := (cfg.order.flatMap cfg.chainOf).filter cfg.isConc
 
 /-- (i) for one observed set. -/
 def snapOk (cfg : Cfg) (q : Nat) (a : List Member) : Bool :=
@@ -76,10 +76,13 @@ def quotaOk (cfg : Cfg) (t : Tracker) (o : Obs) (q : Nat) : Bool :=
       a.isSublist b && b.all (fun m => a.contains m || decide (m.expiry ≤ tick)) &&
       a.all (fun m => decide (tick < m.expiry))
 
-/-- (iii): a refusal needs a full quota among those consulted. -/
+/-- (iii): a refusal of a transaction that holds nothing needs a full quota among those consulted. -/
 def refusalOk (cfg : Cfg) (t : Tracker) (o : Obs) : Bool :=
   match o.ev, o.verdict with
-  | .req _ _, .refused => cfg.concPath.any (fun q => decide (cfg.max q ≤ (t.snap q).length))
+  | .req r _, .refused =>
+    cfg.concPath.any (fun q => decide (cfg.max q ≤ (t.snap q).length)) ||
+    -- a repeated request id that still holds a slot is outside the claim (mixed trees refuse it)
+    cfg.concPath.any (fun q => holdsSlot r (t.snap q))
   | _, _ => true
 
 def stepOk (cfg : Cfg) (t : Tracker) (o : Obs) : Bool :=
